@@ -149,6 +149,7 @@ pub struct Blackboard {
     pub callee_serials: Vec<u32>,
     pub payload_ctr: u64,
     pub deep_payloads: u64,
+    pub rich_payloads: u64,
 }
 
 pub type SharedBlackboard = Rc<RefCell<Blackboard>>;
@@ -271,6 +272,132 @@ pub fn segmented_payload(version: ProtocolVersion, unique: u64, shape: u32) -> S
     sv
 }
 
+/// A random value tree drawn from *all* value kinds (every integer width, floats, ids, every map and
+/// set key type, struct, enum, channel ends), derived from `unique` alone. `Value` serializes its
+/// containers in the 1.20 forms, so forwarding such a payload to an older peer runs the converter
+/// for each of those kinds.
+pub fn rich_value(unique: u64, shape: u32) -> Value {
+    fn key_u(rng: &mut crate::rng::Rng) -> u64 {
+        *rng.pick(&[0u64, 1, 127, 128, 255, 256, 65535, 65536, u32::MAX as u64, u64::MAX, 300, 70000])
+    }
+    fn leaf(rng: &mut crate::rng::Rng) -> Value {
+        let u = key_u(rng);
+        match rng.below(19) {
+            0 => Value::None,
+            1 => Value::Bool(u & 1 == 1),
+            2 => Value::U8(u as u8),
+            3 => Value::I8(u as i8),
+            4 => Value::U16(u as u16),
+            5 => Value::I16(u as i16),
+            6 => Value::U32(u as u32),
+            7 => Value::I32(u as i32),
+            8 => Value::U64(u),
+            9 => Value::I64(u as i64),
+            10 => Value::F32(*rng.pick(&[0.0f32, -1.5, 3.25e10, f32::MIN_POSITIVE, f32::INFINITY])),
+            11 => Value::F64(*rng.pick(&[0.0f64, -2.5, 1e300, f64::EPSILON, f64::NEG_INFINITY])),
+            12 => Value::String(rng.pick(&["", "a", "äöü€", "a longer string with spaces"]).to_string()),
+            13 => Value::Uuid(Uuid::from_u128(u as u128 * 0x1_0000_0001)),
+            14 => Value::ObjectId(aldrin_core::ObjectId::new(
+                aldrin_core::ObjectUuid(Uuid::from_u128(u as u128 + 1)),
+                ObjectCookie(Uuid::from_u128(u as u128 + 2)),
+            )),
+            15 => Value::ServiceId(aldrin_core::ServiceId::new(
+                aldrin_core::ObjectId::new(aldrin_core::ObjectUuid(Uuid::from_u128(u as u128 + 3)), ObjectCookie(Uuid::from_u128(4))),
+                aldrin_core::ServiceUuid(Uuid::from_u128(u as u128 + 5)),
+                ServiceCookie(Uuid::from_u128(6)),
+            )),
+            16 => Value::Sender(ChannelCookie(Uuid::from_u128(u as u128 + 7))),
+            17 => Value::Receiver(ChannelCookie(Uuid::from_u128(u as u128 + 8))),
+            _ => Value::Bytes(Bytes::new((0..rng.below(40)).map(|i| (i * 7) as u8).collect::<Vec<u8>>())),
+        }
+    }
+    fn node(rng: &mut crate::rng::Rng, depth: u32, budget: &mut u32) -> Value {
+        if depth == 0 || *budget == 0 || rng.chance(1, 3) {
+            return leaf(rng);
+        }
+        *budget -= 1;
+        let n = rng.below(4);
+        macro_rules! map {
+            ($variant:ident, $t:ty) => {{
+                let mut m = HashMap::new();
+                for _ in 0..n {
+                    m.insert(key_u(rng) as $t, node(rng, depth - 1, budget));
+                }
+                Value::$variant(m)
+            }};
+        }
+        macro_rules! set {
+            ($variant:ident, $t:ty) => {{
+                let mut m = HashSet::new();
+                for _ in 0..n {
+                    m.insert(key_u(rng) as $t);
+                }
+                Value::$variant(m)
+            }};
+        }
+        match rng.below(26) {
+            0 => Value::Some(Box::new(node(rng, depth - 1, budget))),
+            1 => Value::Vec((0..n).map(|_| node(rng, depth - 1, budget)).collect()),
+            2 => map!(U8Map, u8),
+            3 => map!(I8Map, i8),
+            4 => map!(U16Map, u16),
+            5 => map!(I16Map, i16),
+            6 => map!(U32Map, u32),
+            7 => map!(I32Map, i32),
+            8 => map!(U64Map, u64),
+            9 => map!(I64Map, i64),
+            10 => {
+                let mut m = HashMap::new();
+                for i in 0..n {
+                    m.insert(format!("k{i}{}", key_u(rng)), node(rng, depth - 1, budget));
+                }
+                Value::StringMap(m)
+            }
+            11 => {
+                let mut m = HashMap::new();
+                for _ in 0..n {
+                    m.insert(Uuid::from_u128(key_u(rng) as u128 + 9), node(rng, depth - 1, budget));
+                }
+                Value::UuidMap(m)
+            }
+            12 => set!(U8Set, u8),
+            13 => set!(I8Set, i8),
+            14 => set!(U16Set, u16),
+            15 => set!(I16Set, i16),
+            16 => set!(U32Set, u32),
+            17 => set!(I32Set, i32),
+            18 => set!(U64Set, u64),
+            19 => set!(I64Set, i64),
+            20 => {
+                let mut m = HashSet::new();
+                for i in 0..n {
+                    m.insert(format!("s{i}"));
+                }
+                Value::StringSet(m)
+            }
+            21 => {
+                let mut m = HashSet::new();
+                for _ in 0..n {
+                    m.insert(Uuid::from_u128(key_u(rng) as u128 + 10));
+                }
+                Value::UuidSet(m)
+            }
+            22 | 23 => {
+                let mut f = HashMap::new();
+                for _ in 0..n {
+                    f.insert(key_u(rng) as u32, node(rng, depth - 1, budget));
+                }
+                Value::Struct(Struct(f))
+            }
+            _ => Value::Enum(Box::new(Enum::new(key_u(rng) as u32, node(rng, depth - 1, budget)))),
+        }
+    }
+    let mut rng = crate::rng::Rng::new(unique ^ ((shape as u64) << 48) ^ 0x7269_6368);
+    let mut budget = 10;
+    let tree = node(&mut rng, 4, &mut budget);
+    Value::Vec(vec![Value::U64(unique), tree])
+}
+
 /// A well-formed value nested as deeply as the serializer accepts (the limit is found by trial, so
 /// the harness does not restate the repository's constant): `Some(Some(..(leaf)))` or nested
 /// one-element vectors, optionally one level short of the limit.
@@ -356,6 +483,12 @@ impl Resolver<'_> {
         }
         if shape % 9 == 8 {
             return segmented_payload(self.version, unique, shape);
+        }
+        if shape % 5 == 4 {
+            if let Some(sv) = try_encode_for(self.version, &rich_value(unique, shape)) {
+                self.bb.borrow_mut().rich_payloads += 1;
+                return sv;
+            }
         }
         if shape % 11 == 10 {
             // Nesting at (or one short of) the depth limit. A pre-1.20 actor whose own encoder
